@@ -1010,7 +1010,7 @@ func c06Case(run *evid.Run, i int, j *Journal) {
 		run.NonTrivial(fmt.Sprintf("denied-append/%s/h%d", h.Codec, minInt(len(before.Heads), 3)))
 	}
 	run.Eval(1)
-	if i < 2 {
+	if i < 2 || run.NumSamples() < 2 {
 		run.Sample(histSample(h))
 	}
 }
